@@ -47,7 +47,8 @@ func (d *PathDecoder) hoverAtPos(ctx context.Context, body *hclsyntax.Body, body
 
 	filename := body.Range().Filename
 
-	for name, attr := range body.Attributes {
+	for _, attr := range attributesInSourceOrder(body.Attributes) {
+		name := attr.Name
 		if attr.Range().ContainsPos(pos) {
 			var aSchema *schema.AttributeSchema
 			if bodySchema.Extensions != nil && bodySchema.Extensions.SelfRefs {
